@@ -51,7 +51,7 @@ type c07Claim struct {
 type c07Case struct {
 	N      int        `json:"n"`
 	Seed   uint32     `json:"seed"`
-	Leaf   string     `json:"leaf"` // h32 | short | len64 | dup
+	Leaf   string     `json:"leaf"` // h32 | short | len64 | dup | rawlen | prefix64
 	Claims []c07Claim `json:"claims"`
 }
 
@@ -91,7 +91,7 @@ func genC07(t *rapid.T) c07Case {
 		N: rapid.OneOf(rapid.IntRange(1, 17), rapid.IntRange(1, 70), rapid.IntRange(1, maxN),
 			rapid.SampledFrom([]int{1, 2, 3, 4, 5, 6, 7, 8, 9, 15, 16, 17, 31, 32, 33, 63, 64, 65, 127, 128, 129, 255, 256, 257})).Draw(t, "n"),
 		Seed:   rapid.Uint32().Draw(t, "seed"),
-		Leaf:   rapid.SampledFrom([]string{"h32", "h32", "short", "len64", "dup"}).Draw(t, "leaf"),
+		Leaf:   rapid.SampledFrom([]string{"h32", "h32", "short", "len64", "dup", "rawlen", "rawlen", "prefix64", "prefix64"}).Draw(t, "leaf"),
 		Claims: rapid.SliceOfN(rapid.Custom(genC07Claim), 1, 6).Draw(t, "claims"),
 	}
 }
@@ -114,6 +114,12 @@ func c07Leaf(mode string, seed uint32, i int) []byte {
 		return append(derivedLeaf(seed, i), derivedLeaf(seed+1, i)...)
 	case "dup":
 		return derivedLeaf(seed, i%3)
+	case "rawlen":
+		// raw leaves of every interesting length, 0..1000 bytes
+		return derivedBytes(seed, i, rawLeafLens[i%len(rawLeafLens)])
+	case "prefix64":
+		// neighbours (2j, 2j+1) share their first 64 bytes and differ behind them
+		return append(derivedBytes(seed, i/2, 64), derivedBytes(seed+7, i, 1+i%37)...)
 	}
 	return derivedLeaf(seed, i)
 }
@@ -223,9 +229,24 @@ func mutU32(cur, other uint32, a, b uint32, span uint32) uint32 {
 	return other + 1
 }
 
-// mutLeafBytes: other leaf, random bytes, extensions, prefix games, truncation.
+// mutLeafBytes: other leaf, random bytes, extensions, prefix games, truncation, neighbour leaf,
+// change behind the 64th byte.
 func (w *c07World) mutLeafBytes(cur []byte, m c07Mut) []byte {
-	switch m.A % 8 {
+	switch m.A % 10 {
+	case 8: // the neighbouring leaf (shares a 64-byte prefix in style prefix64)
+		for j, d := range w.data {
+			if bytes.Equal(d, cur) {
+				return append([]byte(nil), w.data[(j^1)%w.n]...)
+			}
+		}
+		return append([]byte(nil), w.data[int(m.B)%w.n]...)
+	case 9: // keep the first 64 bytes, change or add something behind them
+		if len(cur) > 64 {
+			out := append([]byte(nil), cur...)
+			out[64+int(m.B)%(len(cur)-64)] ^= 1 << (m.B % 8)
+			return out
+		}
+		return append(append([]byte(nil), cur...), bytes.Repeat([]byte{byte(m.B)}, 65-len(cur))...)
 	case 0:
 		return append([]byte(nil), w.data[int(m.B)%w.n]...)
 	case 1:
@@ -898,7 +919,7 @@ func (w *c07World) runPathRaw(cl c07Claim) (nontrivial bool) {
 //   odd: payload is a mutation script {kind, a(2), b(2), xlen, x...}* applied to the genuine proof.
 
 var fuzzC07Sizes = []int{1, 2, 3, 4, 5, 6, 7, 8, 9, 11, 13, 15, 16, 17, 21, 32, 33}
-var fuzzC07Leaf = []string{"h32", "short", "len64", "dup"}
+var fuzzC07Leaf = []string{"h32", "short", "len64", "dup", "rawlen", "prefix64"}
 var fuzzC07API = []string{"hash", "bytes", "path", "cons"}
 
 func decodeFuzzC07(d []byte) (c07Case, bool) {
@@ -972,7 +993,7 @@ func FuzzC07(f *testing.F) {
 
 func TestC07(t *testing.T) {
 	ev.Drive(t, "C07",
-		"cases: a list of 1..300 (thorough 2000) leaves (32-byte, short incl. empty, 64-byte, duplicated) and 1..6 claims; each claim is an honest "+
+		"cases: a list of 1..300 (thorough 2000) leaves (32-byte, short incl. empty, 64-byte, duplicated, raw lengths 0..1000, pairs sharing a 64-byte prefix) and 1..6 claims; each claim is an honest "+
 			"(leaf, index, size, root, proof) / leaf-path / (old size, new size, roots, proof) tuple from the RFC 6962 reference for some size n<=N, "+
 			"changed by 0..3 semantic mutations (alter/insert/delete/swap proof hashes, flip or corrupt position flags, change index/sizes/leaf/roots "+
 			"using random hashes and hashes that occur in the tree, interior-node-as-leaf splices, equalised or swapped roots); verdict expected from the "+
